@@ -118,6 +118,18 @@ def oracle(case):
                 for p, q in zip(val_part(s), val_part(ms_)):
                     if values(build(p), allids) != values(build(q), allids):
                         return (("mut", "equal_but_value_differs", mk), "%s == %s but their values differ" % (sshow(s), sshow(ms_)))
+    # -- identifiers that differ only in a flag == ignores (is_term: ia32_sem's init_eax is a terminal, a client's ExprId("init_eax") is not)
+    if ids:
+        try:
+            et = build(s)
+            irsem.walk(et, lambda n: setattr(n, "is_term", True) if n.__class__.__name__ == "ExprId" else None)
+            if (e1 == et) and (et == e1):
+                if hash(e1) != hash(et):
+                    return (("eq", "equal_but_hash_differs", "is_term"), "%s built with is_term identifiers == the plain build, but the hashes differ" % sshow(s))
+                if {e1: 1}.get(et) != 1 or et not in set([e1]):
+                    return (("eq", "equal_but_lookup_fails", "is_term"), "%s: an equal expression built with is_term identifiers is not found in a dict / set keyed by the plain build" % sshow(s))
+        except Exception as ex:
+            return (exc_sig("eq", ex), "%s: %s comparing builds of %s that differ in is_term" % (type(ex).__name__, ex, sshow(s)))
     # -- copy
     try:
         c = e1.copy()
